@@ -64,6 +64,8 @@ for name in sorted(os.listdir(S)):
                     res[m.group(1)] = {"verdict": "no verdict", "output": body[:200]}
         meta["checks"] = res
         meta["caught_by"] = [p for p, r in res.items() if r["verdict"].startswith("VIOLATION")]
+    if os.path.exists(os.path.join(d, "note")):
+        meta["note"] = open(os.path.join(d, "note")).read().strip()
     json.dump(meta, open(os.path.join(d, "meta.json"), "w"), indent=1)
     rows.append(meta)
 if "--table" in sys.argv:
